@@ -200,6 +200,12 @@ pub fn case_strategy(tier: Tier, cl: Classes, max_shards: usize) -> BoxedStrateg
             if cl.excl_flush_steps && (c == "flush" || c == "walclean" || c == "rotate") {
                 return false;
             }
+            // the WAL rotates exactly when the memtable is full, i.e. together with the rotation that queues a flush: a death
+            // at this step is a death with a flush in flight (class of the open finding), whatever the driver waited for
+            // before the STORE (thorough tier, run 11: a flaky duplicate row, 1 of 5 replays)
+            if cl.excl_flush_steps && STEPS[*i as usize] == "wal.rotate_closed" && !cl.finding_steps_only {
+                return false;
+            }
             if cl.excl_wal_steps && c == "wal" {
                 return false;
             }
